@@ -48,6 +48,13 @@ def mask_where(self, mask, replace=None, remask=True, recursive=True):
             obj[...] = replace          # as in the array case below: keeps the
                                         # derivatives, set to zero if missing
 
+            # ...and, as in the array case, a zeroed derivative keeps its units
+            for (key, deriv) in self._derivs_.items():
+                if key not in replace._derivs_ and deriv._units_ is not None:
+                    zeroed = deriv.wod.copy()
+                    zeroed[...] = deriv.zero()
+                    obj.insert_deriv(key, zeroed)
+
         if remask:
             obj = obj.remask(True, recursive=recursive)
 
